@@ -119,7 +119,7 @@ def timedeltas(tier):
 
 
 def paths(cls):
-    return [cls(p) for p in T.PATHS + ["a.b", "..", "../x", "a/b/c.txt", "true", "None", "0", "-1", "1e5", '{"a": 1}', "é", "12:00"]]
+    return [cls(p) for p in T.PATHS + ["a.b", "..", "../x", "a/b/c.txt", "logs/../etc/passwd", "a/../../b", "My Documents /notes.txt ", " lead", "trail ", "tab\t", "nl\n", "true", "None", "0", "-1", "1e5", '{"a": 1}', "é", "12:00"]]
 
 
 SCALARS = {
